@@ -314,4 +314,151 @@ theorem dec_continuous {m : Mach} (hv : Valid m) : ∀ k c h, c < m.S → h + 1 
         dec_zero hv k _ (hv.conf_lt c hc _ hq')]
       exact adj_step hv Nat.one_le_two_pow hq hq' (hv.adj c hc a (by omega))
 
+/-! ## The two machines of `hilbert_curve.rs` satisfy the table facts
+
+Decided by the kernel on the tables of `Gen/HilbertTables.lean` (regenerated from the
+source on every check). -/
+
+theorem m2_valid : Valid m2 := by
+  constructor <;> decide
+
+theorem m3_valid : Valid m3 := by
+  constructor <;> decide +kernel
+
+/-! ## 2-D: cells ↔ quadrant digits -/
+
+theorem bit_mod {R : Nat} (k e n : Nat) : n % R ^ (k + (e + 1)) / R ^ k % R = n / R ^ k % R := by
+  rw [Nat.pow_add, Nat.mod_mul_right_div_self, Nat.pow_succ]
+  exact Nat.mod_mod_of_dvd _ (Nat.dvd_mul_left _ _)
+
+theorem m2_b0 (q : Nat) : m2.b0 q = q / 2 := rfl
+theorem m2_b1 (q : Nat) : m2.b1 q = q % 2 := rfl
+theorem m2_b2 (q : Nat) : m2.b2 q = 0 := rfl
+
+theorem zdigits2_length : ∀ k x y, (zdigits2 k x y).length = k
+  | 0, _, _ => rfl
+  | k + 1, x, y => by simp [zdigits2, zdigits2_length k]
+
+theorem zdigits2_lt : ∀ k x y, ∀ d ∈ zdigits2 k x y, d < m2.R
+  | 0, _, _ => by simp [zdigits2]
+  | k + 1, x, y => by
+    intro d hd
+    simp only [zdigits2, List.mem_cons] at hd
+    rcases hd with rfl | hd
+    · show _ < 4
+      omega
+    · exact zdigits2_lt k x y d hd
+
+theorem zdigits2_mod : ∀ k j x y, k ≤ j → zdigits2 k (x % 2 ^ j) (y % 2 ^ j) = zdigits2 k x y
+  | 0, _, _, _, _ => rfl
+  | k + 1, j, x, y, h => by
+    obtain ⟨e, rfl⟩ : ∃ e, j = k + (e + 1) := ⟨j - k - 1, by omega⟩
+    simp only [zdigits2, zdigits2_mod k _ x y (by omega : k ≤ k + (e + 1)), bit_mod]
+
+theorem cellOf_zdigits2 : ∀ k x y, cellOf m2 (zdigits2 k x y) = (x % 2 ^ k, y % 2 ^ k, 0)
+  | 0, x, y => by simp [zdigits2, cellOf, Nat.mod_one]
+  | k + 1, x, y => by
+    have hx : (2 * (x / 2 ^ k % 2) + y / 2 ^ k % 2) / 2 = x / 2 ^ k % 2 := by omega
+    have hy : (2 * (x / 2 ^ k % 2) + y / 2 ^ k % 2) % 2 = y / 2 ^ k % 2 := by omega
+    simp only [zdigits2, cellOf, cellOf_zdigits2 k x y, zdigits2_length, m2_b0, m2_b1, m2_b2,
+      Nat.mod_pow_succ, hx, hy]
+    simp [Nat.mul_comm, Nat.add_comm]
+
+theorem zdigits2_cellOf : ∀ ds : List Nat, (∀ d ∈ ds, d < m2.R) →
+    zdigits2 ds.length (cellOf m2 ds).1 (cellOf m2 ds).2.1 = ds
+  | [], _ => rfl
+  | q :: qs, h => by
+    have hq : q < 4 := h q (by simp)
+    have hlt := cellOf_lt m2_valid qs (fun x hx => h x (by simp [hx]))
+    have ih := zdigits2_cellOf qs (fun x hx => h x (by simp [hx]))
+    have hpos : 0 < 2 ^ qs.length := Nat.pow_pos (by decide)
+    simp only [List.length_cons, zdigits2, cellOf]
+    congr 1
+    · show 2 * ((q / 2 * 2 ^ qs.length + _) / 2 ^ qs.length % 2) + (q % 2 * 2 ^ qs.length + _) / 2 ^ qs.length % 2 = q
+      rw [Nat.add_comm (q / 2 * _), Nat.add_mul_div_right _ _ hpos, Nat.div_eq_of_lt hlt.1,
+        Nat.add_comm (q % 2 * _), Nat.add_mul_div_right _ _ hpos, Nat.div_eq_of_lt hlt.2.1]
+      omega
+    · rw [← zdigits2_mod qs.length qs.length _ _ (Nat.le_refl _)]
+      show zdigits2 _ ((q / 2 * 2 ^ qs.length + _) % 2 ^ qs.length) ((q % 2 * 2 ^ qs.length + _) % 2 ^ qs.length) = qs
+      rw [Nat.add_comm (q / 2 * _), Nat.add_mul_mod_self_right, Nat.mod_eq_of_lt hlt.1,
+        Nat.add_comm (q % 2 * _), Nat.add_mul_mod_self_right, Nat.mod_eq_of_lt hlt.2.1, ih]
+
+/-- Dropping the least significant quadrant = halving the coordinates. -/
+theorem zdigits2_succ : ∀ k x y,
+    zdigits2 (k + 1) x y = zdigits2 k (x / 2) (y / 2) ++ [2 * (x % 2) + y % 2]
+  | 0, x, y => by simp [zdigits2]
+  | k + 1, x, y => by
+    rw [zdigits2, zdigits2_succ k x y]
+    simp only [zdigits2, List.cons_append, Nat.div_div_eq_div_mul, Nat.pow_succ, Nat.mul_comm]
+
+/-! ## 3-D: cells ↔ octant digits -/
+
+theorem m3_b0 (q : Nat) : m3.b0 q = q / 4 := rfl
+theorem m3_b1 (q : Nat) : m3.b1 q = q / 2 % 2 := rfl
+theorem m3_b2 (q : Nat) : m3.b2 q = q % 2 := rfl
+
+theorem zdigits3_length : ∀ k x y z, (zdigits3 k x y z).length = k
+  | 0, _, _, _ => rfl
+  | k + 1, x, y, z => by simp [zdigits3, zdigits3_length k]
+
+theorem zdigits3_lt : ∀ k x y z, ∀ d ∈ zdigits3 k x y z, d < m3.R
+  | 0, _, _, _ => by simp [zdigits3]
+  | k + 1, x, y, z => by
+    intro d hd
+    simp only [zdigits3, List.mem_cons] at hd
+    rcases hd with rfl | hd
+    · show _ < 8
+      omega
+    · exact zdigits3_lt k x y z d hd
+
+theorem zdigits3_mod : ∀ k j x y z, k ≤ j →
+    zdigits3 k (x % 2 ^ j) (y % 2 ^ j) (z % 2 ^ j) = zdigits3 k x y z
+  | 0, _, _, _, _, _ => rfl
+  | k + 1, j, x, y, z, h => by
+    obtain ⟨e, rfl⟩ : ∃ e, j = k + (e + 1) := ⟨j - k - 1, by omega⟩
+    simp only [zdigits3, zdigits3_mod k _ x y z (by omega : k ≤ k + (e + 1)), bit_mod]
+
+theorem cellOf_zdigits3 : ∀ k x y z,
+    cellOf m3 (zdigits3 k x y z) = (x % 2 ^ k, y % 2 ^ k, z % 2 ^ k)
+  | 0, x, y, z => by simp [zdigits3, cellOf, Nat.mod_one]
+  | k + 1, x, y, z => by
+    have hx : (4 * (x / 2 ^ k % 2) + 2 * (y / 2 ^ k % 2) + z / 2 ^ k % 2) / 4 = x / 2 ^ k % 2 := by omega
+    have hy : (4 * (x / 2 ^ k % 2) + 2 * (y / 2 ^ k % 2) + z / 2 ^ k % 2) / 2 % 2 = y / 2 ^ k % 2 := by omega
+    have hz : (4 * (x / 2 ^ k % 2) + 2 * (y / 2 ^ k % 2) + z / 2 ^ k % 2) % 2 = z / 2 ^ k % 2 := by omega
+    simp only [zdigits3, cellOf, cellOf_zdigits3 k x y z, zdigits3_length, m3_b0, m3_b1, m3_b2,
+      Nat.mod_pow_succ, hx, hy, hz]
+    simp [Nat.mul_comm, Nat.add_comm]
+
+theorem zdigits3_cellOf : ∀ ds : List Nat, (∀ d ∈ ds, d < m3.R) →
+    zdigits3 ds.length (cellOf m3 ds).1 (cellOf m3 ds).2.1 (cellOf m3 ds).2.2 = ds
+  | [], _ => rfl
+  | q :: qs, h => by
+    have hq : q < 8 := h q (by simp)
+    have hlt := cellOf_lt m3_valid qs (fun x hx => h x (by simp [hx]))
+    have ih := zdigits3_cellOf qs (fun x hx => h x (by simp [hx]))
+    have hpos : 0 < 2 ^ qs.length := Nat.pow_pos (by decide)
+    simp only [List.length_cons, zdigits3, cellOf]
+    congr 1
+    · show 4 * ((q / 4 * 2 ^ qs.length + _) / 2 ^ qs.length % 2)
+          + 2 * ((q / 2 % 2 * 2 ^ qs.length + _) / 2 ^ qs.length % 2)
+          + (q % 2 * 2 ^ qs.length + _) / 2 ^ qs.length % 2 = q
+      rw [Nat.add_comm (q / 4 * _), Nat.add_mul_div_right _ _ hpos, Nat.div_eq_of_lt hlt.1,
+        Nat.add_comm (q / 2 % 2 * _), Nat.add_mul_div_right _ _ hpos, Nat.div_eq_of_lt hlt.2.1,
+        Nat.add_comm (q % 2 * _), Nat.add_mul_div_right _ _ hpos, Nat.div_eq_of_lt hlt.2.2]
+      omega
+    · rw [← zdigits3_mod qs.length qs.length _ _ _ (Nat.le_refl _)]
+      show zdigits3 _ ((q / 4 * 2 ^ qs.length + _) % 2 ^ qs.length)
+        ((q / 2 % 2 * 2 ^ qs.length + _) % 2 ^ qs.length) ((q % 2 * 2 ^ qs.length + _) % 2 ^ qs.length) = qs
+      rw [Nat.add_comm (q / 4 * _), Nat.add_mul_mod_self_right, Nat.mod_eq_of_lt hlt.1,
+        Nat.add_comm (q / 2 % 2 * _), Nat.add_mul_mod_self_right, Nat.mod_eq_of_lt hlt.2.1,
+        Nat.add_comm (q % 2 * _), Nat.add_mul_mod_self_right, Nat.mod_eq_of_lt hlt.2.2, ih]
+
+/-- Dropping the least significant octant = halving the coordinates. -/
+theorem zdigits3_succ : ∀ k x y z,
+    zdigits3 (k + 1) x y z = zdigits3 k (x / 2) (y / 2) (z / 2) ++ [4 * (x % 2) + 2 * (y % 2) + z % 2]
+  | 0, x, y, z => by simp [zdigits3]
+  | k + 1, x, y, z => by
+    rw [zdigits3, zdigits3_succ k x y z]
+    simp only [zdigits3, List.cons_append, Nat.div_div_eq_div_mul, Nat.pow_succ, Nat.mul_comm]
+
 end Coupe.Hilbert
